@@ -3068,6 +3068,24 @@ def _set_bang_to_py_ast(
 
     val_ast = gen_py_ast(ctx, node.val)
 
+    # In expression position the value is also the value of the `set!` form itself, so
+    # it is evaluated into a temporary first and assigned from there
+    val_node: ast.expr
+    val_deps: list[PyASTNode] = list(val_ast.dependencies)
+    if node.env.pos == NodeSyntacticPosition.EXPR:
+        val_temp_name = genname(_SET_BANG_TEMP_PREFIX)
+        val_deps.append(
+            ast.Assign(
+                targets=[ast.Name(id=val_temp_name, ctx=ast.Store())],
+                value=val_ast.node,
+            )
+        )
+        val_node = ast.Name(id=val_temp_name, ctx=ast.Load())
+        result_node: ast.expr = ast.Name(id=val_temp_name, ctx=ast.Load())
+    else:
+        val_node = val_ast.node
+        result_node = _noop_node()
+
     target = node.target
     assert isinstance(
         target, (HostField, Local, VarRef)
@@ -3076,7 +3094,7 @@ def _set_bang_to_py_ast(
     assign_ast: list[PyASTNode]
     if isinstance(target, HostField):
         target_ast = _interop_prop_to_py_ast(ctx, target, is_assigning=True)
-        assign_ast = [ast.Assign(targets=[target_ast.node], value=val_ast.node)]
+        assign_ast = [ast.Assign(targets=[target_ast.node], value=val_node)]
     elif isinstance(target, VarRef):
         # This is a bit of a hack to force the generator to generate code for accessing
         # a Var directly so we can store a temp reference to that Var rather than
@@ -3121,44 +3139,19 @@ def _set_bang_to_py_ast(
                 )
             ),
         )
-        assign_ast = [ast.Call(func=target_ast.node, args=[val_ast.node], keywords=[])]
+        assign_ast = [ast.Call(func=target_ast.node, args=[val_node], keywords=[])]
     elif isinstance(target, Local):
         target_ast = _local_sym_to_py_ast(ctx, target, is_assigning=True)
-        assign_ast = [ast.Assign(targets=[target_ast.node], value=val_ast.node)]
+        assign_ast = [ast.Assign(targets=[target_ast.node], value=val_node)]
     else:  # pragma: no cover
         raise ctx.GeneratorException(
             f"invalid set! target type {type(target)}", lisp_ast=target
         )
 
-    if node.env.pos == NodeSyntacticPosition.EXPR:
-        val_temp_name = genname(_SET_BANG_TEMP_PREFIX)
-        return GeneratedPyAST(
-            node=ast.Name(id=val_temp_name, ctx=ast.Load()),
-            dependencies=list(
-                chain(
-                    val_ast.dependencies,
-                    [
-                        ast.Assign(
-                            targets=[ast.Name(id=val_temp_name, ctx=ast.Store())],
-                            value=val_ast.node,
-                        )
-                    ],
-                    target_ast.dependencies,
-                    assign_ast,
-                )
-            ),
-        )
-    else:
-        return GeneratedPyAST(
-            node=_noop_node(),
-            dependencies=list(
-                chain(
-                    val_ast.dependencies,
-                    target_ast.dependencies,
-                    assign_ast,
-                )
-            ),
-        )
+    return GeneratedPyAST(
+        node=result_node,
+        dependencies=list(chain(val_deps, target_ast.dependencies, assign_ast)),
+    )
 
 
 @_with_ast_loc_deps
